@@ -160,7 +160,7 @@ func runC06(p *core.Prog, r *core.Result) {
 		"(*dawn.Project).saveIndex": "runs after the load barrier, from (*Project).load only",
 		"(*dawn.Project).loadIndex": "runs before any loader goroutine is started, from (*Project).load only",
 	}})
-	r.Floor("R6.2", n, 4, "accesses to Project.modules")
+	r.Floor("R6.2", n, 2, "accesses to Project.modules")
 	li := p.Locks(loadModule)
 	var lookups []*ssa.Lookup
 	var updates []*ssa.MapUpdate
@@ -264,11 +264,11 @@ func runC06(p *core.Prog, r *core.Result) {
 		r.Check(okPub, "R6.3", construct, p.InstrPos(ci), "whenever there is a waiter, waiter.setLoading(m) precedes m."+cal.Name()+" on every path", "a waiter reaches m."+cal.Name()+" without having published that it is loading m: a load cycle through this edge is invisible to the chain walk and hangs")
 		r.Check(okClr, "R6.3", construct+":clear", p.InstrPos(ci), "the edge is cleared by a deferred setLoading(nil) registered before the wait", "the loading edge is not cleared by defer: stale edges produce false cyclic-dependency errors")
 	}
-	r.Floor("R6.3", nW, 2, "wait/load calls in loadModule")
+	r.Floor("R6.3", nW, 1, "wait/load calls in loadModule")
 
 	// R6.4 wait/wake
 	waits := findWaits(p, r, "R6.4")
-	r.Floor("R6.4", len(waits), 3, "sync.Cond.Wait call sites in the module")
+	r.Floor("R6.4", len(waits), 1, "sync.Cond.Wait call sites in the module")
 	nw := checkWakes(p, r, "R6.4", waits, pkgRoot, "module")
 	r.Floor("R6.4", nw, 1, "stores to module.loaded")
 	// publication order in done
@@ -339,8 +339,9 @@ func runC06(p *core.Prog, r *core.Result) {
 		ok := c.Parent() == loadModule
 		if ok {
 			ok = false
+			recv := p.ResolvePhiAt(c.Common().Args[0], ci)
 			for _, mu := range updates {
-				if core.Dominates(mu, ci) && mu.Value == c.Common().Args[0] {
+				if p.DominatesModuloFacts(mu, ci) && mu.Value == recv {
 					ok = true
 				}
 			}
@@ -352,6 +353,7 @@ func runC06(p *core.Prog, r *core.Result) {
 	// R6.6 cyclic error only on loading == waiter
 	wp := wait.Params[1]
 	nc := 0
+	walkFn, walkParam := wait, wp
 	for _, ret := range core.ReturnsOf(wait) {
 		vals := core.RetVals(ret)
 		if len(vals) != 2 {
@@ -362,19 +364,47 @@ func runC06(p *core.Prog, r *core.Result) {
 		}
 		nc++
 		ok := p.FactsAt(ret).Find(func(c ssa.Value, v bool) bool {
-			b, okb := c.(*ssa.BinOp)
-			if !okb || (b.Op != token.EQL && b.Op != token.NEQ) {
+			if reachedParam(c, v, wp) {
+				return true
+			}
+			// or a helper that reports whether the chain reaches the waiter: every `return true` of the helper is
+			// under "element == its waiter parameter"
+			call, isCall := c.(*ssa.Call)
+			if !isCall || !v {
 				return false
 			}
-			if b.X == ssa.Value(wp) || b.Y == ssa.Value(wp) {
-				other := b.X
-				if other == ssa.Value(wp) {
-					other = b.Y
+			h := core.Callee(call)
+			if h == nil || !core.InModule(h) || h.Blocks == nil {
+				return false
+			}
+			for i, a := range call.Call.Args {
+				if a != ssa.Value(wp) || i >= len(h.Params) {
+					continue
 				}
-				if core.IsNilConst(other) {
-					return false
+				hp := h.Params[i]
+				all, some := true, false
+				for _, hr := range core.ReturnsOf(h) {
+					hv := core.RetVals(hr)
+					if len(hv) != 1 {
+						all = false
+						continue
+					}
+					if b, isConst := core.ConstBool(hv[0]); isConst {
+						if !b {
+							continue
+						}
+						some = true
+						if !p.FactsAt(hr).Find(func(c2 ssa.Value, v2 bool) bool { return reachedParam(c2, v2, hp) }) {
+							all = false
+						}
+					} else {
+						all = false
+					}
 				}
-				return (b.Op == token.EQL) == v
+				if all && some {
+					walkFn, walkParam = h, hp
+					return true
+				}
 			}
 			return false
 		})
@@ -382,13 +412,31 @@ func runC06(p *core.Prog, r *core.Result) {
 	}
 	r.Floor("R6.6", nc, 1, "fresh-error returns of (*module).wait")
 	// the chain walk advances: the loop variable is reassigned from getLoading of the *current* chain element
-	checkChainWalk(p, r, wait)
+	checkChainWalk(p, r, walkFn, walkParam)
+}
+
+// reachedParam: the condition `x == prm` (x not nil) has value v == true, or `x != prm` false.
+func reachedParam(c ssa.Value, v bool, prm *ssa.Parameter) bool {
+	b, okb := c.(*ssa.BinOp)
+	if !okb || (b.Op != token.EQL && b.Op != token.NEQ) {
+		return false
+	}
+	if b.X == ssa.Value(prm) || b.Y == ssa.Value(prm) {
+		other := b.X
+		if other == ssa.Value(prm) {
+			other = b.Y
+		}
+		if core.IsNilConst(other) {
+			return false
+		}
+		return (b.Op == token.EQL) == v
+	}
+	return false
 }
 
 // checkChainWalk: in wait, the phi that is compared with the waiter must be fed, on its back edge, by the
 // loading edge of the phi's own current value (x = x.loading), not by a loop-invariant value.
-func checkChainWalk(p *core.Prog, r *core.Result, wait *ssa.Function) {
-	wp := wait.Params[1]
+func checkChainWalk(p *core.Prog, r *core.Result, wait *ssa.Function, wp *ssa.Parameter) {
 	var phi *ssa.Phi
 	core.Instrs(wait, func(in ssa.Instruction) {
 		b, ok := in.(*ssa.BinOp)
